@@ -209,6 +209,8 @@ Definition rstep (st : rstate) (l : rlabel) : routcome :=
           else release_conn st1 sz)
       | DCharged =>
         if negb isrecv then RStuck 17 else
+        if negb (r_isrecv s) then RStuck 27 else              (* is_recv is only ever cleared (streams.rs clear_recv_buffer): a
+                                                                 record whose handle was dropped is never charged again *)
         rthen (consume_conn st sz) (fun st1 =>
           if ras_size (r_win s) <? sz then RStuck 18
           else if negb (in_i32r (r_win s - sz)) || negb (in_i32r (r_avail s - sz)) then ROk st1 [RConnErr]
